@@ -63,7 +63,7 @@ func (c *Ctx) ruleAcceptedEnqueued(rr *RuleRep) {
 	if a.lost(rr) {
 		return
 	}
-	rr.Floor(4)
+	rr.Floor(3)
 	basePublish := c.Method("BaseClient", "Publish")
 	for _, api := range retryAPIs {
 		m := c.Method("RetryClient", api.API)
@@ -83,7 +83,7 @@ func (c *Ctx) ruleAcceptedEnqueued(rr *RuleRep) {
 		for _, ret := range returnsOf(m) {
 			ev := c.Resolve(c.errResult(ret))
 			inner := ev
-			if call, callee := c.asCall(ev); call != nil && callee != nil && callee.Pkg == c.Pkg && (callee.Name() == "wrapError" || callee.Name() == "wrapErrorf") && len(call.Call.Args) > 0 {
+			if call, callee := c.asCall(ev); call != nil && callee != nil && callee.Pkg == c.Pkg && c.isWrapFn(callee) && len(call.Call.Args) > 0 {
 				inner = c.Resolve(call.Call.Args[0])
 			}
 			switch {
